@@ -165,11 +165,60 @@ def check(ctx, rep):
            [norm(s) for s in cl.body[0].body][:1] == ['self._flush_record_buffer()'] if isinstance(cl.body[0], ast.If) or isinstance(cl.body[1], ast.If) else False, '', ctx.where(cl)) \
         if isinstance(cl.body[0], ast.If) else rep.ob('terminator.flush-first', 'close flushes full records before writing the last one',
                                                       isinstance(cl.body[1], ast.If) and norm(cl.body[1].body[0]) == 'self._flush_record_buffer()', '', ctx.where(cl))
+    # every record carries at least one block: the reader (and the skip path of the search, which reads one
+    # block per record) cannot parse a leader followed directly by a trailer
+    def nonempty(e, fn):
+        if isinstance(e, ast.Constant) and isinstance(e.value, bytes):
+            return len(e.value) > 0
+        if isinstance(e, ast.Call) and norm(e.func) in ('int2byte', 'struct.pack'):
+            return True
+        if isinstance(e, ast.BinOp) and isinstance(e.op, ast.Add):
+            return nonempty(e.left, fn) or nonempty(e.right, fn)
+        if isinstance(e, ast.Name):
+            defs = [a.value for a in own_nodes(fn) if isinstance(a, ast.Assign) and norm(a.targets[0]) == e.id]
+            return bool(defs) and all(nonempty(d, fn) for d in defs)
+        return False
+    nrec = 0
+    for fn in ctx.idx.functions(CAS):
+        for c in own_nodes(fn):
+            if isinstance(c, ast.Call) and norm(c.func) == 'self._write_record' and len(c.args) == 1:
+                nrec += 1
+                flc = ctx.flow(fn)
+                guarded = any(f.pol and f.text == norm(c.args[0]) for f in flc.facts(c))
+                rep.ob('record.never-empty', '%s: _write_record(%s) writes at least one block' % (fn.name, short(c.args[0], 40)),
+                       guarded or nonempty(c.args[0], fn),
+                       'the payload can be empty (a zero-length BSAVE image): the record has a leader and a trailer but no block, and skipping it fails with Device I/O error',
+                       ctx.where(c))
+    rep.floor('record.never-empty', nrec, 4, 'records written')
     # search
     se = ctx.fn(CAS + ':CASDevice._search')
     ts = norm(se)
-    rep.ob('search.match', 'a file is found when name (blank-trimmed) and type match',
-           '(not trunk_req or trunk.rstrip() == trunk_req.rstrip()) and (not filetypes_req or filetype in filetypes_req)' in ts, '', ctx.where(se))
+    import re as _re
+    ow_ = ctx.fn(CAS + ':CassetteStream.open_write')
+    packs_ = [c for c in own_nodes(ow_) if isinstance(c, ast.Call) and norm(c.func) == 'struct.pack']
+    width = None
+    if packs_:
+        m_ = _re.search(r'(\d+)s', ctx.fold(packs_[0].args[0]) if not isinstance(packs_[0].args[0], ast.Constant) else packs_[0].args[0].value)
+        width = int(m_.group(1)) if m_ else None
+    wslices = [x for c in packs_ for x in ast.walk(c) if isinstance(x, ast.Subscript) and norm(x.value) == 'name' and isinstance(x.slice, ast.Slice)]
+    wcut = wslices[0].slice.upper.value if wslices and isinstance(wslices[0].slice.upper, ast.Constant) and wslices[0].slice.lower is None else None
+    rep.ob('header.name-field-width', 'the writer cuts the name to the %s-byte header field' % width, width is not None and wcut == width, 'name[:%s] into a %ss field' % (wcut, width), ctx.where(ow_))
+    conds = [n for n in own_nodes(se) if isinstance(n, ast.If) and isinstance(n.test, ast.BoolOp) and isinstance(n.test.op, ast.And)]
+    okm, detail = False, ''
+    if len(conds) == 1 and len(conds[0].test.values) == 2:
+        nm, ty = conds[0].test.values
+        okt = norm(ty) == 'not filetypes_req or filetype in filetypes_req'
+        cmpn = [c for c in ast.walk(nm) if isinstance(c, ast.Compare) and len(c.ops) == 1 and isinstance(c.ops[0], ast.Eq)]
+        okn = False
+        if isinstance(nm, ast.BoolOp) and isinstance(nm.op, ast.Or) and norm(nm.values[0]) == 'not trunk_req' and len(cmpn) == 1:
+            l, r = norm(cmpn[0].left), norm(cmpn[0].comparators[0])
+            okn = l == 'trunk.rstrip()' and r == 'trunk_req[:%s].rstrip()' % width
+            detail = '%s == %s: the header holds only the first %s characters of the name' % (l, r, width)
+        okm = okt and okn
+        if not okt:
+            detail = 'type test is `%s`' % norm(ty)
+    rep.ob('search.match', 'a file is found when its type matches and the stored name equals the requested name cut to the header field (both blank-trimmed)',
+           okm, detail, ctx.where(se))
     hs = [h for n in own_nodes(se) if isinstance(n, ast.Try) for h in n.handlers]
     codes = [ctx.basic_error_code(r) for h in hs for r in own_nodes(h) if isinstance(r, ast.Raise)]
     rep.ob('search.end-of-tape', 'end of tape rewinds and raises Device timeout', len(hs) == 1 and norm(hs[0].type) == 'EndOfTape' and codes == ['DEVICE_TIMEOUT']
@@ -206,6 +255,8 @@ def variants(ctx):
         Va('crc-little-endian-writer', 'break', CAS, in_fn('CassetteStream._write_block', _swap_crc), expect='block.crc'),
         Va('binary-read-one-block', 'break', CAS,
            in_fn('CassetteStream._fill_record_buffer', lambda fn: mu.replace_expr(fn, mu.text_is('self._read_record(self.length)'), 'self._read_record(256)')), expect='binary'),
+        Va('search-compares-uncut-name', 'break', CAS,
+           in_fn('CASDevice._search', lambda fn: mu.replace_expr(fn, mu.text_is('trunk_req[:8].rstrip()'), 'trunk_req.rstrip()')), expect='search.match'),
         Va('search-ignores-type', 'break', CAS,
            in_fn('CASDevice._search', lambda fn: mu.replace_expr(fn, mu.text_is('not filetypes_req or filetype in filetypes_req'), 'True')), expect='search.match'),
         Va('type-token-collision', 'break', CAS,
